@@ -724,21 +724,6 @@ func ksBound(s h.RLWESpec, k KeySpec, digits []int, lvl int, erow, s1 *big.Int) 
 	return sum.Add(sum, big.NewInt(1))
 }
 
-// coverageShort reports whether the base-2 digits of some modulus up to lvl do not cover all its bits (lattigo derives
-// the digit count from round(log2 q)); the evaluator then drops the top bit of a few coefficients. That is a property
-// of the single-party gadget product (C04), so the functional use is not asserted for such keys.
-func coverageShort(s h.RLWESpec, k KeySpec, digits []int, lvl int) bool {
-	if k.W == 0 || k.LevelP > 0 {
-		return false
-	}
-	for i := 0; i <= lvl && i < len(digits); i++ {
-		if digits[i]*k.W < bits.Len64(s.Q[i]) {
-			return true
-		}
-	}
-	return false
-}
-
 // discriminating reports whether bound < m/16 (otherwise the case cannot tell right from wrong).
 func discriminating(bound, m *big.Int) bool {
 	return new(big.Int).Lsh(bound, 4).Cmp(m) < 0
